@@ -94,6 +94,22 @@ def run(ctx):
             if o.native.status != o.vm.status:
                 ctx.violation("btable|%s|exit-status" % name, "builtin table %s: exit status native %s, VM %s" % (name, o.native.status, o.vm.status), {"main.nano": text})
         ctx.require(bt_cells > 2500, "builtin tables incomplete (%d cells)" % bt_cells)
+        hm_sizes = 0
+        for (name, text, exp, ncell, labels), o in pmap(do_bt, tables.hashmap_tables()):
+            if not o.built or o.native is None or o.vm is None or "SENTINEL" not in o.native.text() or "SENTINEL" not in o.vm.text():
+                ctx.violation("hashmap|%s|incomplete" % name, "hashmap table %s: %s" % (
+                    name, "native build failed: " + engines.classify_nanoc_failure(o.nanoc) if not o.built else
+                    "a run ended early (native status %s, vm status %s): %s" % (o.native.status if o.native else None, o.vm.status if o.vm else None,
+                                                                               (o.vm.errtext() if o.vm else "")[-200:])),
+                    {"main.nano": text, "native.stdout": o.native.out if o.native else "", "vm.stdout": o.vm.out if o.vm else ""})
+                continue
+            bad = tables.hashmap_first_bad(o.native.text(), o.vm.text())
+            hm_sizes += len(labels)
+            if bad:
+                ctx.violation("hashmap|%s|%s" % (name, bad[0]), "hashmap table %s, map size %s: native printed '%s', VM printed '%s' (output line %d)" % (
+                    name, bad[0], bad[2], bad[3], bad[1]), {"main.nano": text, "native.stdout": o.native.out, "vm.stdout": o.vm.out})
+        ctx.require(hm_sizes >= 40, "hashmap tables incomplete (%d sizes)" % hm_sizes)
+        bt_cells += hm_sizes * 8
         n_cells_equal = sum(1 for k in census_out.values() if k == "equal")
         ctx.require(n_cells_equal >= 20, "census: only %d cells comparable" % n_cells_equal)
 
